@@ -25,7 +25,8 @@ PARAMS["C06"] = {"rule": "exhaustive: for N in 0..=8, every reachable (front, ba
 PROPS["C01"] = Prop(
     "C01", ["GA.Props.C01"],
     [Engine("layout", scen.layout, sig=lambda l: l.split()[0]),
-     Engine("layout", scen.layout_full, bin="layout_full", sig=lambda l: l.split()[0])],
+     Engine("layout", scen.layout_full, bin="layout_full", sig=lambda l: l.split()[0]),
+     Engine("xmute", scen.xmute, sig=lambda l: "xmute")],
     trusted=[KERNEL, TRANSLATOR, HARNESS,
              "modelled, not verified: rustc's implementation of repr(C), repr(transparent), [T; 0] and PhantomData layout (the Rust Reference's algorithm is the model); validated against size_of/align_of on the grid"],
     assumptions=["every Rust type has 0 < align and align | size (language guarantee); element layouts are abstracted to (size, align)",
@@ -44,7 +45,8 @@ def own_sig(l):
 
 PROPS["C04"] = Prop(
     "C04", ["GA.Props.C04", "GA.Props.Body"],
-    [Engine("own", scen.own_c04, sig=own_sig, body_view=True)],
+    [Engine("own", scen.own_c04, sig=own_sig, body_view=True),
+     Engine("heap", scen.heap_c04, sig=lambda l: l.split()[0] + "/" + l.split()[2])],
     trusted=[KERNEL, TRANSLATOR, BODYTIE, HARNESS, OWN_TRUST],
     assumptions=["element ids are distinct; caller code is a function of the call index (one injected panic per run)",
                  "a second panic during unwinding aborts the process and is outside the property",
@@ -98,7 +100,7 @@ MEM_TRUST = "modelled, not verified: slice::from_raw_parts(_mut), reference tran
 
 PROPS["C02"] = Prop(
     "C02", ["GA.Props.C02"],
-    [Engine("views", scen.views, sig=lambda l: l.split()[0], miri=80)],
+    [Engine("views", scen.views, sig=lambda l: l.split()[0], miri=80), Engine("xmute", scen.xmute, sig=lambda l: "xmute")],
     trusted=[KERNEL, TRANSLATOR, HARNESS, MEM_TRUST],
     assumptions=["a view is described by (address offset, element count); aliasing rules beyond address equality (Stacked/Tree Borrows) are not modelled",
                  "correspondence covers the length lattice incl. every tuple length 1..=12; theorems cover every N and every source length L"],
